@@ -161,18 +161,23 @@ impl Read for WatchClose {
 
             let err_mask = Events::EPOLLRDHUP | Events::EPOLLHUP | Events::EPOLLERR;
 
+            // the side we forward to is gone: nothing more can be delivered
             for ev in v.iter().take(r) {
-                if err_mask.bits() & ev.events != 0 {
+                if ev.data != 0 && err_mask.bits() & ev.events != 0 {
                     return Err(io::Error::from(io::ErrorKind::BrokenPipe));
                 }
             }
 
+            // our own side: deliver what was already received before reporting the hang-up
             for ev in v.iter().take(r) {
                 if ev.data != 0 {
                     continue;
                 }
                 if Events::EPOLLIN.bits() & ev.events != 0 {
                     break 'outer;
+                }
+                if err_mask.bits() & ev.events != 0 {
+                    return Err(io::Error::from(io::ErrorKind::BrokenPipe));
                 }
             }
         }
